@@ -261,7 +261,8 @@ fn download(dir: &PathBuf, len: usize, ws: u16, rep: u8, fault: Fault, verdict: 
     }
     // C08 (window bound, cumulative ACK): with a conformant peer and no fault every acknowledgement arrives in time, so every
     // block goes out exactly once (x repeat); anything more was sent without a time-out or a gap to justify it
-    if fault == Fault::None {
+    if fault == Fault::None && (rep == 1 || ws == 1) {
+        // (with copies AND a window the peer re-acknowledges in the middle of a window, which legitimately moves it)
         let n_data = sh.emitted.iter().filter(|p| matches!(p, Packet::Data { .. })).count() as u64;
         if n_data > nblocks * rep as u64 {
             verdict.violations.push(("C08", format!("{ctx}: {} DATA datagrams for {} blocks although no datagram was lost: blocks were sent again after they had been acknowledged", n_data, nblocks)));
@@ -270,6 +271,10 @@ fn download(dir: &PathBuf, len: usize, ws: u16, rep: u8, fault: Fault, verdict: 
     // C04 / C07: with a conformant peer and a single fault the transfer must have delivered the whole file
     if expected != nblocks + 1 || client_copy != data {
         verdict.violations.push(("C04", format!("{ctx}: transfer did not deliver the file (client has {} of {} blocks)", expected - 1, nblocks)));
+        if rep > 1 && fault == Fault::None {
+            // C16: a transfer in duplicate-packets mode with a conformant peer and no loss must still complete
+            verdict.violations.push(("C16", format!("{ctx}: in duplicate-packets mode the transfer did not deliver the file (client has {} of {} blocks)", expected - 1, nblocks)));
+        }
     }
 }
 
@@ -396,6 +401,10 @@ impl Socket for SenderPeer {
 fn upload(dir: &PathBuf, len: usize, ws: u16, rep: u8, fault: Fault, verdict: &mut Verdict, label: &str) {
     let path = dir.join("ul.bin");
     let _ = std::fs::remove_file(&path);
+    if label.contains("over-existing") {
+        // the target already holds a longer file (an accepted overwrite): nothing of it may survive
+        std::fs::write(&path, vec![0xEEu8; len + 3 * BLK + 1]).unwrap();
+    }
     let data = file_bytes(len);
     let nblocks = (len / BLK + 1) as u64;
     let acks = Arc::new(Mutex::new(Vec::new()));
@@ -656,6 +665,21 @@ fn main() {
             download(&dir, len, 4, 1, f.clone(), &mut verdict, "sender-wrap");
             runs += 1;
             upload(&dir, len, 4, 1, f, &mut verdict, "receiver-wrap");
+        }
+    }
+    // duplicate-packets mode with many copies: the peer acknowledges every surplus copy again, so the sender sees runs of 7 and of
+    // 254 stale acknowledgements; they must be ignored however many there are (C16 / C08)
+    if which == "all" || which == "C16" || which == "C08" || which == "C04" || which == "C07" {
+        for (len, ws, rep) in [(20usize, 1u16, 8u8), (45, 1, 8), (20, 1, 255)] {
+            runs += 1;
+            download(&dir, len, ws, rep, Fault::None, &mut verdict, "sender many-copies");
+        }
+    }
+    // an accepted overwrite: the uploaded file replaces the longer one that was there (C02)
+    if which == "all" || which == "C02" || which == "C13" {
+        for (len, ws) in [(0usize, 1u16), (20, 1), (45, 3)] {
+            runs += 1;
+            upload(&dir, len, ws, 1, Fault::None, &mut verdict, "receiver over-existing");
         }
     }
     // windows of more than 32768 blocks (C08: the whole 16-bit range of window sizes)
